@@ -151,6 +151,19 @@ def render(bits, talker='AIVDM', chan='A', seq=None, cuts=(), delim='!'):
     return [sentence(talker, n, i + 1, seq, chan, p, fill if i == n - 1 else 0, delim) for i, p in enumerate(parts)]
 
 
+def render_ragged(bits, bitcuts, talker='AIVDM', chan='A', seq='1', delim='!'):
+    """sentences carrying `bits` cut at arbitrary BIT positions: every fragment is padded to whole characters on its
+    own and says so in its own fill-bit field (NMEA gives every sentence such a field, not only the last one)"""
+    pts = [0] + list(bitcuts) + [len(bits)]
+    parts = [bits[a:b] for a, b in zip(pts, pts[1:])]
+    n = len(parts)
+    out = []
+    for i, pb in enumerate(parts):
+        payload, fill = armor(pb)
+        out.append(sentence(talker, n, i + 1, seq, chan, payload, fill, delim))
+    return out
+
+
 def tag_block(content):
     return b'\\' + content + b'*' + ('%X' % nmea_checksum(content)).encode() + b'\\'
 
